@@ -186,8 +186,11 @@ func (s *Storage) StatBlobs(ctx context.Context, blobs []blob.Ref, fn func(blob.
 
 func (s *Storage) EnumerateBlobs(ctx context.Context, dest chan<- blob.SizedRef, after string, limit int) error {
 	defer close(dest)
+	// The page is collected under the lock, but sent without it: the
+	// receiver may need the store (e.g. to Fetch what it is told about)
+	// while we block on the channel, and a writer queued on s.mu in the
+	// meantime would make those readers wait for us forever.
 	s.mu.RLock()
-	defer s.mu.RUnlock()
 
 	// TODO(bradfitz): care about keeping this sorted like we used
 	// to? I think it was more expensive than it was worth before,
@@ -201,19 +204,23 @@ func (s *Storage) EnumerateBlobs(ctx context.Context, dest chan<- blob.SizedRef,
 	}
 	sort.Sort(blob.ByRef(sorted))
 
-	n := 0
+	var page []blob.SizedRef
 	for _, br := range sorted {
 		if after != "" && br.String() <= after {
 			continue
 		}
+		page = append(page, blob.SizedRef{Ref: br, Size: uint32(len(s.m[br]))})
+		if limit > 0 && len(page) == limit {
+			break
+		}
+	}
+	s.mu.RUnlock()
+
+	for _, sb := range page {
 		select {
-		case dest <- blob.SizedRef{Ref: br, Size: uint32(len(s.m[br]))}:
+		case dest <- sb:
 		case <-ctx.Done():
 			return ctx.Err()
-		}
-		n++
-		if limit > 0 && n == limit {
-			break
 		}
 	}
 	return nil
